@@ -1,6 +1,7 @@
 package api
 
 import (
+	"errors"
 	"io"
 	"net/http"
 	"net/url"
@@ -37,14 +38,25 @@ type vEtcdLock struct {
 	depth  int
 }
 
+var errLockTimeout = errors.New("context deadline exceeded")
+
 type vLock struct {
 	local  sync.Mutex
 	etcd   *vEtcdLock
 	member int
 }
 
+// vLockFailures: how many acquisitions may still time out in etcd (set by the harness). A failed
+// acquisition gives the member's own lock back, as cluster.mutex.Lock does.
+var vLockFailures int
+
 func (l *vLock) Lock() error {
 	l.local.Lock()
+	if vLockFailures > 0 && verifBool("lockAcquisitionTimesOut") {
+		vLockFailures--
+		l.local.Unlock()
+		return errLockTimeout
+	}
 	e := l.etcd
 	e.mu.Lock()
 	if e.depth > 0 && e.holder == l.member {
@@ -291,4 +303,53 @@ func vItoa(v int64) string {
 		v /= 10
 	}
 	return digits
+}
+
+// verifC18_ServerLock: the admin API's own Lock / Unlock (lazily created, cached cluster mutex)
+// used by several requests of one member at once, one acquisition possibly timing out: the
+// request that was refused panics with a cluster error (answered 5xx by the recoverer) and
+// holds nothing; of the others at most one is inside the critical section at any moment, and
+// nobody is left stuck.
+func verifC18_ServerLock() {
+	store := &vStore{kv: map[string]string{}, mu: &sync.Mutex{}, etcd: &vEtcdLock{holder: -1}, member: 0}
+	s := &Server{cluster: store, super: &supervisor.Supervisor{}}
+	vLockFailures = 1
+	inCritical := 0
+	entered := 0
+	var wg sync.WaitGroup
+	worker := func() {
+		defer wg.Done()
+		refused := false
+		func() {
+			defer func() {
+				if r := recover(); r != nil {
+					_, isClusterErr := r.(clusterErr)
+					verifAssert(isClusterErr, "failed-acquisition-is-reported-as-a-cluster-error")
+					refused = true
+				}
+			}()
+			s.Lock()
+		}()
+		if refused {
+			verifCover("acquisition-failed")
+			return
+		}
+		inCritical++
+		entered++
+		verifAssert(inCritical == 1, "at-most-one-admin-operation-in-the-critical-section")
+		verifYield()
+		verifAssert(inCritical == 1, "at-most-one-admin-operation-in-the-critical-section")
+		inCritical--
+		s.Unlock()
+	}
+	n := verifBound("requests")
+	for i := 0; i < n; i++ {
+		wg.Add(1)
+		go worker()
+	}
+	wg.Wait()
+	vLockFailures = 0
+	if entered >= 2 {
+		verifCover("two-holders-in-sequence")
+	}
 }
